@@ -57,6 +57,8 @@ FLAG_SETS = [("-fcompound-names",), ("-fcompound-names", "-fwide-types"), ("-fco
              ("-fcompound-names",), ("-fcompound-names", "-fwide-types")]
 POOL = 5                      # values per type
 FRESH = 6                     # script sets per driver process
+REPLAY_REPS = 400             # a schedule-dependent mismatch needs many repetitions to show up again on demand
+ATTEMPTS = 5                  # fresh processes tried by one replay before it says "holds"
 I64_MAX = (1 << 63) - 1
 
 # Known-finding classes: name -> predicate(type features, op) that EXCLUDES the class by construction.
@@ -457,36 +459,59 @@ def worker(mod_json, wseed, nsets, cfg_kw, reps, shrink_budget=24):
 
 
 # ------------------------------------------------------------------ replay
+def _attempt(mb, line):
+    """One fresh driver process running one line.  Returns (class or None, text)."""
+    d = mb.driver(timeout=300, env=TSAN_ENV)
+    rc_err = None
+    try:
+        reply = d.cmd(line)
+    except drv.DriverCrash as e:
+        return classify_crash(e)
+    finally:
+        try:
+            rc_err = d.close()
+        except Exception:
+            d.kill()
+    if rc_err and (rc_err[0] != 0 or "WARNING: ThreadSanitizer" in rc_err[1]):
+        return "exit", "driver exit status %s:\n%s" % (rc_err[0], rc_err[1][-2500:])
+    p = check_reply(reply)
+    if p:
+        return p
+    return None, reply["_raw"][:600]
+
+
 def replay_case(case):
-    """Fresh build + fresh process.  Returns (violated, text).  The concurrent phase is repeated more often than in
-    the campaign (same deterministic input; only the number of repetitions grows)."""
+    """Fresh build + fresh processes.  Returns (violated, text).
+    A ThreadSanitizer report does not depend on winning a race and shows on the first attempt.  A result mismatch or a
+    crash in the concurrent phase (oracle 1) depends on the interleaving, so the same deterministic input is run with
+    far more repetitions than in the campaign, in up to ATTEMPTS fresh processes; when it shows, the control experiment
+    (runseq: identical work, identical repetitions, one thread at a time) must be clean, otherwise the call is not
+    deterministic even alone and the case says nothing about concurrency.  "exact": true (regression replays) keeps the
+    recorded repetition count and makes one attempt."""
     mod = Module.from_json(case["module"])
     line = case["line"]
     toks = line.split(" ", 3)
+    attempts = 1
     if toks[0] == "run" and not case.get("exact"):
-        toks[2] = str(max(int(toks[2]), 12))
+        toks[2] = str(max(int(toks[2]), REPLAY_REPS))
         line = " ".join(toks)
+        attempts = ATTEMPTS
+    text = ""
     with drv.ModuleBuild(mod.render(), tuple(case.get("flags", drv.DEFAULT_FLAGS)), VARIANT, **BUILD_KW) as mb:
-        d = mb.driver(timeout=180, env=TSAN_ENV)
-        try:
-            reply = d.cmd(line)
-        except drv.DriverCrash as e:
-            cls, text = classify_crash(e)
+        for i in range(attempts):
+            cls, text = _attempt(mb, line)
+            if cls is None:
+                continue
             if cls in ("crash-alone", "hang-alone"):
                 return False, "not a concurrency failure: " + text
-            return True, text
-        finally:
-            rc_err = None
-            try:
-                rc_err = d.close()
-            except Exception:
-                d.kill()
-        if rc_err and (rc_err[0] != 0 or "WARNING: ThreadSanitizer" in rc_err[1]):
-            return True, "driver exit status %s:\n%s" % (rc_err[0], rc_err[1][-2500:])
-        p = check_reply(reply)
-        if p:
-            return True, p[1]
-        return False, reply["_raw"][:600]
+            if cls.startswith("tsan:") or not line.startswith("run "):
+                return True, text
+            ccls, ctext = _attempt(mb, "runseq" + line[3:])
+            if ccls is not None:
+                return False, "the same work run one thread at a time fails as well (%s): not a concurrency failure\n%s" % (ccls, ctext[-800:])
+            return True, text + "\n[attempt %d/%d; control: the same work run one thread at a time with the same %s repetitions " \
+                "gave results identical to the solo run]" % (i + 1, attempts, toks[2])
+    return False, text
 
 
 def main(argv):
